@@ -12,7 +12,7 @@ import numpy as np
 
 from .. import _weighting
 from .._validation import _check_scalar_variable
-from ..utils import ParameterWarning, gaussian, relative_difference, _MIN_FLOAT
+from ..utils import ParameterWarning, gaussian, relative_difference, _MIN_FLOAT, _sort_array2d
 from ._algorithm_setup import _Algorithm2D
 from ._whittaker_utils import PenalizedSystem2D
 
@@ -452,6 +452,9 @@ class _Spline(_Algorithm2D):
             )
             baseline = self._polynomial.vandermonde @ (pseudo_inverse @ data.ravel())
             weights = _weighting._asls(data, baseline.reshape(self._shape), p)
+            # have to invert the weight ordering to match the original input y ordering
+            # since it will be sorted within _setup_spline
+            weights = _sort_array2d(weights, self._inverted_order)
 
         y, weight_array, pspline = self._setup_spline(
             data, weights, spline_degree, num_knots, True, diff_order, lam
